@@ -18,3 +18,6 @@ extern crate self as push;
 
 #[cfg(feature = "macros")]
 pub use collectable;
+
+#[cfg(feature = "verif")]
+mod verif_states;
